@@ -179,6 +179,12 @@ static void check_gen(const gen *G, int kgidx)
         if (G->script_kind == 1) {   /* scalar_random: candidates L (rejected), 0 (rejected), >= L with high bits (masked: check), then a valid one */
             memcpy(script, L_LE, 32); memset(script + 32, 0, 32); memset(script + 64, 0xff, 32); script[64 + 31] = 0xff; /* masked to 0x1f ff.. > L: rejected */
             memcpy(script + 96, L_LE, 32); script[96] -= 1; script[96 + 31] |= 0xe0;                                        /* L-1 with the three top bits set: masked -> valid */
+            if (pat == 1) {   /* candidates that are zero only AFTER the top three bits are cleared (k * 2^253), L and L+1 with top bits, then 2^252 (valid) */
+                memset(script, 0, 192); script[31] = 0x20; script[32 + 31] = 0xe0; script[64 + 31] = 0x80;
+                memcpy(script + 96, L_LE, 32); script[96 + 31] |= 0xa0; memcpy(script + 128, L_LE, 32); script[128] += 1; script[128 + 31] |= 0x40;
+                script[160 + 31] = 0x10; }
+            if (pat == 2) {   /* 2^254 (masked to zero), 2^253 + 2^255, then 1 with all three top bits set (masked -> 1, valid) */
+                memset(script, 0, 96); script[31] = 0x40; script[32 + 31] = 0xa0; script[64] = 1; script[64 + 31] = 0xe0; }
         }
         run_gen(G, out1, script, sizeof script); used = byte_pos;
         n_eval++; n_nontriv++;
